@@ -12,6 +12,8 @@ EXTENDS Pyxis, Props, Json
 
 CONSTANTS Trees, BackSets, Collisions, Ptrs, InDirs
 
+FM == INSTANCE Files        \* which file a module is read from and written to
+
 P == TypeDef("P", "pub", <<Field("x", "pub", <<>>, TCPtr(TNm("u8")), None, FALSE)>>)
 P2 == TypeDef("P", "pub", <<Field("y", "pub", <<>>, TCPtr(TNm("u8")), None, FALSE),
                             Field("z", "pub", <<>>, TCPtr(TNm("u8")), None, FALSE)>>)
@@ -101,7 +103,7 @@ Duplicate == \E mi \in DOMAIN input.mods : HasDuplicate(input.mods[mi])
 KF_Dup == ~CHECKDUP /\ Duplicate
 
 ExpectedFile(m) ==
-  [path |-> m.path,
+  [path |-> m.path, src |-> FM!SrcRel(FM!FileOfModule(m.path)), outrel |-> FM!OutRel(m.path),
    structs |-> {m.defs[i].name : i \in {j \in DOMAIN m.defs : m.defs[j].k = "type"}}
                \cup {m.defs[i].name \o "Vftable" : i \in {j \in DOMAIN m.defs : m.defs[j].k = "type" /\ m.defs[j].vft.has}},
    enums |-> {m.defs[i].name : i \in {j \in DOMAIN m.defs : m.defs[j].k = "enum"}},
